@@ -69,12 +69,43 @@ def _nzkey(ir, name):
     return name if (si is not None and si.w == 1) else ('nz', name)
 
 
+_ALIAS = {}      # 1-bit combinational local -> (key, value of the key when the local is 1); set per IR by _set_aliases
+
+
+def _set_aliases(ir):
+    """A 1-bit local with a single unconditional combinational definition that is a zero test of a signal (a named
+    bit-period tick, `tick = (counter == 0)`) stands for that test wherever it is used as a guard literal."""
+    _ALIAS.clear()
+    for name, si in ir.signals.items():
+        if si.w != 1 or name.startswith('self.'):
+            continue
+        ds = ir.drivers(name, exact=True)
+        if len(ds) != 1 or ds[0].domain != 'comb' or ds[0].guard or ds[0].state is not None:
+            continue
+        r = ds[0].rhs
+        if isinstance(r, E) and r.op == 'sig' and r.w == 1 and r.canon() != name:
+            _ALIAS[name] = (r.canon(), True)
+            continue
+        if isinstance(r, E) and r.op == '~' and isinstance(r.args[0], E) and r.args[0].op == 'sig' and r.args[0].w == 1:
+            _ALIAS[name] = (r.args[0].canon(), False)
+            continue
+        zt = _zero_test(ds[0].rhs)
+        if zt is None and isinstance(ds[0].rhs, E) and ds[0].rhs.op == '~' and isinstance(ds[0].rhs.args[0], E):
+            zt = _zero_test(ds[0].rhs.args[0])
+            zt = zt and (zt[0], not zt[1], zt[2])
+        if zt is not None and zt[0] != name:
+            _ALIAS[name] = ((zt[0] if zt[2] == 1 else ('nz', zt[0])), zt[1])
+
+
 def _nlit(l):
     """Normalised literal (key, value): zero tests on a signal S become (('nz', S), bool); S itself when S is 1 bit."""
     zt = _zero_test(l.e)
     if zt is not None and l.kind == 'cond':
         return (zt[0] if zt[2] == 1 else ('nz', zt[0])), (zt[1] == l.pos)
     a, p = atom_of(l)
+    if a in _ALIAS:
+        k, v = _ALIAS[a]
+        return k, (v == p)
     return a, p
 
 
@@ -324,6 +355,7 @@ def check_uart(ctx, d):
     K = lambda role: '%s.%s[%s]' % (C, role, tag)
     ir = ctx.ir(C, MOD, **({} if d is None else {'divisor': d}))
     fsm = ctx.the_fsm(ir)
+    _set_aliases(ir)
     idle = fsm.init
     TX, RDY, VLD, PAY = 'self.tx', 'self.stream.ready', 'self.stream.valid', 'self.stream.payload'
     pw = ir.signals[ctx.sig(ir, PAY)].w
@@ -368,7 +400,9 @@ def check_uart(ctx, d):
 
     # the bit-period tick is "baud counter == 0": find the baud counter = the down-counter that is decremented in the
     # shifting state on its own schedule (guard mentions at most itself)
-    decs = [a for a in ir.assigns if a.state == (fsm.id, send_tx) and a.lhs.op == 'sig' and _is_dec(a) and a.lhs.canon() != reg]
+    # (a free-running divider written outside the FSM is written in the shifting state as well)
+    decs = [a for a in ir.assigns if (a.state == (fsm.id, send_tx) or (a.state is None and a.domain == fsm.domain))
+            and a.lhs.op == 'sig' and _is_dec(a) and a.lhs.canon() != reg]
     names = sorted({a.lhs.canon() for a in decs})
     ctx.need(len(names) == 2, 'two down-counters (baud, bits) in the shifting state (found %s)' % names)
     free = [n for n in names if any(set(norm(a)) <= {_nzkey(ir, n)} for a in decs if a.lhs.canon() == n)]
@@ -382,7 +416,7 @@ def check_uart(ctx, d):
     # -- baud counter
     want = (d - 1) if d is not None else 'self.divisor - 1'
     bd = ir.drivers(baud, exact=True)
-    here = sorted([a for a in bd if a.state == (fsm.id, send)], key=lambda a: a.order)
+    here = sorted([a for a in bd if a.state == (fsm.id, send) or a.state is None], key=lambda a: a.order)
     bdec = [a for a in here if _is_dec(a)]
     reload_ = [a for a in here if not _is_dec(a)]
     t0 = {_nzkey(ir, baud): False}
@@ -397,7 +431,7 @@ def check_uart(ctx, d):
     ctx.ob('C49.baud-step', K('baud.reload-wins'), bool(eff) and all(_val(a.rhs) == want for a in eff),
            (eff or here)[0].loc, 'at a bit boundary (%s == 0) the baud counter must become divisor-1 = %s; under last-wins '
            'the deciding assignments are %s' % (baud, want, [q.fmt(a) for a in eff] or 'none'))
-    stray = [a for a in bd if a.state is None or q.state_of(a) not in (idle, send)]
+    stray = [a for a in bd if a.state is not None and q.state_of(a) not in (idle, send)]
     ctx.ob('C49.baud-step', K('baud.writers'), not stray, (stray or bd)[0].loc,
            'unexpected writers of the baud counter: %s' % [q.fmt(a) for a in stray])
     for nm, l in sites:
@@ -430,6 +464,7 @@ def check_multibyte(ctx, bw, d):
         kw['divisor'] = d
     ir = ctx.ir(C, MOD, **kw)
     fsm = ctx.the_fsm(ir)
+    _set_aliases(ir)
     idle = fsm.init
     subs = [s for s in ir.submodules if s.obj.clsname == 'UARTTransmitter']
     ctx.need(len(subs) == 1, 'the inner UARTTransmitter of %s' % C)
